@@ -16,7 +16,7 @@ from . import s3, s4
 
 ID = "C08"
 RULE = (
-    "(a) accounting: every CVR list of n cards with every style over 2 contests x per-contest card bound (Python integers, and again as numpy integers) in {unset, count, "
+    "(a) accounting: every CVR list of n cards (n = 0 included) with every style over 2 contests x per-contest card bound (Python integers, and again as numpy integers) in {unset, count, "
     "count+1, count+2} x stratum bound in {n, n+1, n+3} x style on/off x pool label on/off (and three contests with shortfalls in {0,1,3,6}, style on): make_phantoms must return the "
     "original objects unchanged and first, unique phantom identifiers distinct from real ones, per-contest (style) or total "
     "(no style) record counts equal to the bound, and no more phantoms than the largest shortfall; (b) scoring: for every "
@@ -27,7 +27,7 @@ RULE = (
     "needs at least one phantom / scoring pair with a strict decrease; distinct = distinct case"
 )
 ASSUMPTIONS = ["bounds below the number of CVRs are outside the property's quantifier", "real identifiers never start with the phantom prefix"]
-REQUIRE_VAC = ["cases_needing_phantoms", "cases_no_phantom_needed", "strict_decrease_pairs", "phantom_cvr_scored", "phantoms_sampled", "shared_phantom_two_contests"]
+REQUIRE_VAC = ["empty_cvr_list_cases", "cases_needing_phantoms", "cases_no_phantom_needed", "strict_decrease_pairs", "phantom_cvr_scored", "phantoms_sampled", "shared_phantom_two_contests"]
 PLAN = {"quick": 3, "thorough": 5}
 IDS = ["c1", "c2"]
 
@@ -225,6 +225,21 @@ def run_shard(sh, rec):
                             if rec.want_sample((styles, cb, sb, use_style, pool)):
                                 rec.sample({"styles": [list(s) for s in styles], "contest_bounds(count+)": list(cb), "stratum_bound(n+)": sb, "use_style": use_style,
                                             "pool_label": pool, "phantoms": info and info["phantoms"]})
+    elif sh[0] == "empty":
+        # the root of the lattice: no CVR at all (every card of every contest is then a phantom)
+        for cb in itertools.product([None, 0, 1, 2], repeat=2):
+            for sb in (0, 1, 3):
+                for use_style in (True, False):
+                    for np_bounds in (False, True):
+                        if np_bounds and all(b is None for b in cb):
+                            continue
+                        v, info = judge_accounting([], cb, sb, use_style, False, IDS, np_bounds)
+                        rec.state()
+                        rec.trans()
+                        rec.evals()
+                        rec.vac("empty_cvr_list_cases")
+                        for key, what in v:
+                            rec.violate(key, what, {"kind": "acct", "styles": [], "cb": list(cb), "sb": sb, "use_style": use_style, "pool": False, "np_bounds": np_bounds})
     elif sh[0] == "count":
         # many records of two styles: k of n list c1, the others c2 only; bounds = counts + 1 (every count 0..n, n up to 60)
         for n in range(1, 61):
@@ -273,7 +288,7 @@ def run_shard(sh, rec):
 
 
 def explore(tier, seed):
-    sh = [("vendor", "dominion"), ("vendor", "hart"), ("count",)]
+    sh = [("vendor", "dominion"), ("vendor", "hart"), ("count",), ("empty",)]
     for n in range(1, PLAN[tier] + 1):
         for first in range(4):
             sh.append(("acct", n, first))
